@@ -1,7 +1,9 @@
 #!/bin/bash
 # re-run tools/seedcheck.sh for every kept seed against the current /repo and /verif; one line per seed
+# (the owning check is the one recorded in the seed's meta.json, by default the prefix of its name)
 cd /verif
 for d in seeded/*/; do
   n=$(basename $d); p=${n%%_*}
-  tools/seedcheck.sh $d $p quick 2>&1 | head -1 | cut -c1-170
+  q=$(python3 -c "import json,sys; print(json.load(open('$d/meta.json')).get('property','$p'))" 2>/dev/null || echo $p)
+  tools/seedcheck.sh $d $q quick 2>&1 | head -1 | cut -c1-170
 done
